@@ -374,7 +374,11 @@ func (b *builder) block(depth int) {
 		if b.o.EI {
 			b.emit(0xf3)
 			for n := r.Range(1, 4); n > 0; n-- {
-				b.simple()
+				if r.Chance(1, 3) {
+					b.block(depth + 1) // loops, calls, block instructions inside the disabled section
+				} else {
+					b.simple()
+				}
 			}
 			b.emit(0xfb)
 		} else {
